@@ -36,7 +36,7 @@ package gldap
 //@ predicate wire(p *ber.Packet) = p != nil && p.Data != nil && p.Tag >= 0 &&
 //@     (p.TagType == ber.TypePrimitive || p.TagType == ber.TypeConstructed) &&
 //@     (p.ClassType == ber.ClassUniversal || p.ClassType == ber.ClassApplication || p.ClassType == ber.ClassContext || p.ClassType == ber.ClassPrivate) &&
-//@     forall(i, 0, len(p.Children), wire(p.Children[i])) &&
+//@     forallt(i, 0, len(p.Children), wire(p.Children[i]), p.Children[i]) &&
 //@     (p.TagType == ber.TypeConstructed ==> isNilIface(p.Value)) &&
 //@     (p.TagType == ber.TypePrimitive ==> len(p.Children) == 0) &&
 //@     (p.TagType == ber.TypePrimitive && p.ClassType != ber.ClassUniversal ==> isNilIface(p.Value)) &&
@@ -210,6 +210,33 @@ package gldap
 //@ loop 2
 //@   invariant len(add.controls) == rangeindex__2 + 1
 //@   modifies addParameters.controls, cell(Control), all(ber.Packet), cell(*ber.Packet), G_bufdata, G_pktnew
+
+//@ predicate valsWrapped(vs []string, set *ber.Packet) = len(vs) == old(nkids(set)) && forall(k, 0, len(vs), vs[k] == old(str(kid(set,k))) || vs[k] == old(pktbytes(kid(set,k))))
+//@ predicate changeOK(c *ber.Packet) = isSeq(c) && nkids(c) >= 2 && isEnum(kid(c,0)) && isSeq(kid(c,1)) && nkids(kid(c,1)) >= 2 && isOct(kid(kid(c,1),0))
+//@ pure modHead(q *ber.Packet) bool = reqPktOK(q) && op(q).Tag == ApplicationModifyRequest && nkids(op(q)) >= 2 && isOct(kid(op(q),0)) && isSeq(kid(op(q),1))
+//@ func (*gldap.packet).modifyParameters
+//@   requires packetOK(p) && wire(p.Packet)
+//@   ensures  err == nil ==> result0 != nil && old(modHead(p.Packet) && ctlPktOK(p.Packet))
+//@   ensures  err == nil ==> result0.dn == old(str(kid(op(p.Packet),0))) && len(result0.changes) == old(nkids(kid(op(p.Packet),1))) && len(result0.controls) == old(nctl(p.Packet))
+//@   ensures  err == nil ==> forall(i, 0, len(result0.changes), old(changeOK(kid(kid(op(p.Packet),1),i))) && result0.changes[i].Operation == old(intval(kid(kid(kid(op(p.Packet),1),i),0))) && result0.changes[i].Modification.Type == old(str(kid(kid(kid(kid(op(p.Packet),1),i),1),0))))
+//@   ensures  err == nil ==> forall(i, 0, len(result0.changes), len(result0.changes[i].Modification.Vals) == old(nkids(kid(kid(kid(kid(op(p.Packet),1),i),1),1))))
+//@   panics false
+//@   tags C01
+//@   safety C02
+//@ loop 1
+//@   invariant len(parameters.changes) == rangeindex__1 + 1
+//@   invariant forall(i, 0, len(parameters.changes), old(changeOK(kid(kid(op(p.Packet),1),i))))
+//@   invariant forall(i, 0, len(parameters.changes), parameters.changes[i].Operation == old(intval(kid(kid(kid(op(p.Packet),1),i),0))))
+//@   invariant forall(i, 0, len(parameters.changes), parameters.changes[i].Modification.Type == old(str(kid(kid(kid(kid(op(p.Packet),1),i),1),0))))
+//@   invariant forall(i, 0, len(parameters.changes), len(parameters.changes[i].Modification.Vals) == old(nkids(kid(kid(kid(kid(op(p.Packet),1),i),1),1))))
+//@   modifies modifyParameters.changes, all(Change), cell(string)@none
+//@ loop 2
+//@   invariant len(chg.Modification.Vals) == rangeindex__2 + 1 && fresh(chg.Modification.Vals)
+//@   invariant forall(k, 0, len(chg.Modification.Vals), chg.Modification.Vals[k] == pktbytes(kid(valuesPacket, k)))
+//@   modifies cell(string)@chg.Modification.Vals
+//@ loop 3
+//@   invariant len(parameters.controls) == rangeindex__3 + 1
+//@   modifies modifyParameters.controls, cell(Control), all(ber.Packet), cell(*ber.Packet), G_bufdata, G_pktnew
 
 // ---- control.go -------------------------------------------------------------------------
 //@ func gldap.decodeControl
